@@ -146,6 +146,81 @@ def sched_check(obs_vs):
     return [(k + ":under-some-schedule", d) for k, d in vs]
 
 
+# ------------------------------------------------------------------ E5: the connection ends at every step of the handling of its CER / CEA
+HANDOVER_VARIANTS = [(msg, fault) for msg in ("cea_ok", "cer_p0", "cer_nocommon") for fault in ("eof", "clock")]
+
+
+def handover_execute(variant, k):
+    """The reader thread is handling the connection's CER / CEA; at kernel step k of that handling (line granularity in the handlers)
+    the peer closes the connection / the capabilities-exchange deadline passes and the I/O thread reacts at once (one environment
+    step + one forced hand-over: complete over the numbered steps, see mc/handover.py).  Table invariant at quiescence and after each
+    of 3 further seconds."""
+    from .. import handover, scenario, simkernel as sk
+    import diameter.node.node as nn
+    msg, fault = variant
+    sk.install()
+    pts = {}
+    for name in ("receive_cer", "receive_cea", "_flag_connection_as_ready", "_flag_peer_as_connected", "_assign_peer_connection", "_receive_message"):
+        if hasattr(nn.Node, name):
+            pts[sk.code_of(nn.Node, name)] = None
+    # (helpers a refactoring may have split off the handlers are points as well: every function of Node called from them)
+    for name, f in vars(nn.Node).items():
+        if name.startswith("_is_") and callable(f):
+            pts[sk.code_of(nn.Node, name)] = None
+    sk.set_line_points(pts)
+    ch = handover.HandOverChooser("_handle_connections")
+    cfg = copy.deepcopy(BASE)
+    cfg["node"]["wakeup"] = 6
+    start_plan = None
+    if msg == "cea_ok":
+        cfg["peers"][0].update({"ips": ["10.1.0.1"], "persistent": True, "reconnect_wait": 30})
+        start_plan = ["ok"]
+    sc = scenario.Scenario(cfg, chooser=ch, max_socks=3, start_plan=start_plan)
+    try:
+        nw = sc.start()
+        mons = [m(sc) for m in MONS]
+        vs = []
+
+        def step(ev):
+            ok = sc.apply(ev)
+            for m in mons:
+                vs.extend(m.step())
+            return ok
+        if msg != "cea_ok":
+            step(("accept",))
+        s = sc.socks[0]
+        fired = []
+
+        def inject():
+            fired.append(1)
+            if fault == "eof":
+                s.env_closed = True
+                s.fs.eof = True
+                nw.world.obs("env_eof", s.fs.sid)
+            else:
+                nw.world.jump(3)
+            ch.active = True
+        base = nw.world.steps
+        if k is not None:
+            nw.world.step_hooks[base + k] = inject
+        nw.world.points_on = True
+        step(("m", 0, msg))
+        nw.world.points_on = False
+        steps = nw.world.steps - base
+        nw.world.step_hooks.clear()
+        ch.active = False
+        for _ in range(3):
+            step(("tick", 1))
+        out = [(f"{key}:connection-ended-while-its-{msg.split('_')[0].upper()}-was-being-handled", f"{fault} at kernel step {k} of the handling of {msg}: {d}") for key, d in vs]
+        for f in nw.thread_failures():
+            out.append(("thread-died:connection-ended-while-its-handshake-was-being-handled", f"{variant} step {k}: {f}"))
+        return bool(fired), steps, out
+    except sk.Livelock as e:
+        return True, 0, [("livelock:node-threads-never-reach-quiescence", f"{variant} step {k}: {e}")]
+    finally:
+        sc.close()
+
+
 def run(tier):
     rep = Report("C13", tier, "model_checking")
     common.pool()
@@ -160,6 +235,13 @@ def run(tier):
             rep.add(Violation(key, f"[{v}, bound {bound}] choices {choices}: {detail}", {"sched": v, "choices": choices}))
         rep.sample({"schedule_exploration": f"{v}: reader thread handling the message vs I/O thread ending the connection, line granularity",
                     "preemption_bound": bound, "bound_completed_without_cap": r.get("bound_completed", bound), "capped": r.get("capped", False), "executions": r["executions"], "distinct_outcomes": len(r["outcomes"]), "branching_points": r["max_points"]})
+    from .. import handover
+    for v in HANDOVER_VARIANTS:
+        n, pts, hvs = handover.enumerate_points(functools.partial(handover_execute, v))
+        sched += n
+        for (key, detail), k in hvs:
+            rep.add(Violation(key, detail, {"handover": list(v), "step": k}))
+        rep.sample({"fault_at_every_step": f"{v[1]} at every kernel step of the handling of {v[0]}, the I/O thread reacts at once", "points": pts, "executions": n})
     rep.cov["schedules"] = sched
     depth = 7 if tier == "thorough" else 5
     ms = models(tier)
@@ -177,6 +259,9 @@ def run(tier):
 
 
 def replay(case):
+    if "handover" in case:
+        fired, steps, vs = handover_execute(tuple(case["handover"]), case["step"])
+        return [Violation(k, d) for k, d in vs]
     if "sched" in case:
         import functools
         from .. import scheddfs
